@@ -430,9 +430,9 @@ func checkC13(c *core.Ctx, r *core.Report) {
 
 	// ---------------------------------------------------------------- (4)
 	aliasMap := c.Global(pkgVTable, "aliasToIndexNames")
-	writeAlias := c.Obj(pkgVTable, "writeAliasFile")
-	removeAlias := c.Obj(pkgVTable, "removeAliasFile")
-	fileChange := objs(writeAlias, removeAlias)
+	// the alias file changes are found by effect (a write / remove below the alias directory, or a call of a
+	// package function hosting one), so that inlining writeAliasFile / removeAliasFile changes nothing here
+	fileChange := findAliasFiles(c)
 	memChangers := map[*ssa.Function]bool{}
 	for _, fn := range c.RepoFunctions() {
 		for _, b := range fn.Blocks {
@@ -478,7 +478,7 @@ func checkC13(c *core.Ctx, r *core.Report) {
 		var leak ssa.Instruction
 		nChange := 0
 		for _, ci := range core.CallsIn(fn) {
-			if !fileChange.hasCallee(ci) {
+			if !fileChange.isChange(ci) {
 				continue
 			}
 			nChange++
